@@ -441,6 +441,12 @@ def larger_descriptions(chunk, replay=None):
                 cands.append(("overlap", b))
             cands.append(("outside", (x0, y0, NX + 1, y1)))
             cands.append(("outside", (x0 - (x0 + 1), y0, x1, y1)))
+            if s >= 0.1:
+                # a THIN overlap with a region that shares an edge: 2e-8 lattice units deep, thousands of times the die's own tolerance (1e-11 of
+                # its short side) but far below the pairwise area tolerance -- only the exact area sum sees it (after the open seed r8-C01-2)
+                for o in others:
+                    if o[0] == x1 and min(y1, o[3]) - max(y0, o[1]) > 0:
+                        cands += [("thin_overlap", (x0, y0, x1 + 2e-8, y1))] * 3
             spoil, b = rng.choice(cands)
             bad_layout = list(layout)
             bad_layout[i] = b
